@@ -1,9 +1,943 @@
-//! E3 CRASH — placeholder until the crash explorer lands (see below).
+//! E3 CRASH — every file-system mutation boundary of a recorded history x every admissible loss of
+//! unsynced state (DESIGN §1.4 E3), recovered by the real `StorageEngine::new`.
+//!
+//! The recorder is the LD_PRELOAD shim (shim/fsshim.c): the workload runs in this process on a scratch
+//! directory whose name contains "rec"; the shim appends every successful mutation to `<scratch>.fslog`.
+
 use crate::common::*;
-use serde_json::Value as J;
+use crate::e2_store::mk_config;
+use inputlayer::{DurabilityMode, StorageEngine, Tuple, Value};
+use serde_json::{json, Value as J};
+use std::collections::{BTreeMap, BTreeSet};
+use std::panic::{catch_unwind, AssertUnwindSafe};
+use std::path::{Path, PathBuf};
+
+// ---------------------------------------------------------------------------------------- log
+
+#[derive(Clone, Debug)]
+pub enum Rec {
+    Create(String),
+    Trunc(String),
+    Write { path: String, off: usize, data: Vec<u8> },
+    Ftrunc { path: String, len: usize },
+    SyncFile(String),
+    SyncDir(String),
+    Rename(String, String),
+    Unlink(String),
+    Mkdir(String),
+    Rmdir(String),
+    Mark(String),
+}
+
+fn unhex(s: &str) -> Vec<u8> {
+    let b = s.as_bytes();
+    let v = |c: u8| if c <= b'9' { c - b'0' } else { c - b'a' + 10 };
+    (0..b.len() / 2).map(|i| v(b[2 * i]) * 16 + v(b[2 * i + 1])).collect()
+}
+
+pub fn parse_log(text: &str) -> Result<Vec<Rec>, String> {
+    let mut out = vec![];
+    for line in text.lines() {
+        let mut it = line.splitn(2, ' ');
+        let tag = it.next().unwrap_or("");
+        let rest = it.next().unwrap_or("");
+        let r = match tag {
+            "C" => Rec::Create(rest.to_string()),
+            "T" => Rec::Trunc(rest.to_string()),
+            "W" => {
+                let p: Vec<&str> = rest.splitn(4, ' ').collect();
+                if p.len() != 4 {
+                    return Err(format!("bad W record: {}", truncate(line, 80)));
+                }
+                let data = unhex(p[3]);
+                if data.len() != p[2].parse::<usize>().map_err(|e| e.to_string())? {
+                    return Err("W record length mismatch".into());
+                }
+                Rec::Write { path: p[0].to_string(), off: p[1].parse().map_err(|_| "bad offset")?, data }
+            }
+            "U" => {
+                let p: Vec<&str> = rest.splitn(2, ' ').collect();
+                Rec::Ftrunc { path: p[0].to_string(), len: p.get(1).and_then(|x| x.parse().ok()).ok_or("bad U")? }
+            }
+            "S" => Rec::SyncFile(rest.to_string()),
+            "D" => Rec::SyncDir(rest.to_string()),
+            "R" => {
+                let p: Vec<&str> = rest.splitn(2, ' ').collect();
+                if p.len() != 2 {
+                    return Err("bad R".into());
+                }
+                Rec::Rename(p[0].to_string(), p[1].to_string())
+            }
+            "X" => Rec::Unlink(rest.to_string()),
+            "M" => Rec::Mkdir(rest.to_string()),
+            "Y" => Rec::Rmdir(rest.to_string()),
+            "K" => Rec::Mark(rest.to_string()),
+            _ => return Err(format!("unknown record {}", truncate(line, 60))),
+        };
+        out.push(r);
+    }
+    Ok(out)
+}
+
+type MarkFn = unsafe extern "C" fn(*const libc::c_char, *const libc::c_char);
+pub fn fs_mark(scratch: &Path, text: &str) -> bool {
+    let name = std::ffi::CString::new("verif_fs_mark").unwrap();
+    let p = unsafe { libc::dlsym(libc::RTLD_DEFAULT, name.as_ptr()) };
+    if p.is_null() {
+        return false;
+    }
+    let f: MarkFn = unsafe { std::mem::transmute(p) };
+    let a = std::ffi::CString::new(scratch.to_str().unwrap()).unwrap();
+    let b = std::ffi::CString::new(text).unwrap();
+    unsafe { f(a.as_ptr(), b.as_ptr()) };
+    true
+}
+pub fn recorder_active() -> bool {
+    std::env::var("VERIF_FS_ROOT").map(|r| r == "/dev/shm/verif-").unwrap_or(false) && crate::entropy::shim_loaded()
+}
+pub fn log_path(scratch: &Path) -> PathBuf {
+    PathBuf::from(format!("{}.fslog", scratch.display()))
+}
+
+// ---------------------------------------------------------------------------------------- labelling
+
+/// Per-record facts derived from the true execution: inode identities and durability at crash point.
+struct Labelled {
+    /// inode id of the file a data / sync / create op refers to (None for dir ops and marks)
+    inode: Vec<Option<usize>>,
+}
+
+fn is_dir_op(r: &Rec) -> bool {
+    matches!(r, Rec::Create(_) | Rec::Rename(..) | Rec::Unlink(_) | Rec::Mkdir(_) | Rec::Rmdir(_))
+}
+fn is_data_op(r: &Rec) -> bool {
+    matches!(r, Rec::Trunc(_) | Rec::Write { .. } | Rec::Ftrunc { .. })
+}
+fn is_sync(r: &Rec) -> bool {
+    matches!(r, Rec::SyncFile(_) | Rec::SyncDir(_))
+}
+
+fn label(recs: &[Rec]) -> Labelled {
+    let mut path2ino: BTreeMap<String, usize> = BTreeMap::new();
+    let mut next = 0usize;
+    let mut inode = vec![None; recs.len()];
+    for (i, r) in recs.iter().enumerate() {
+        match r {
+            Rec::Create(p) => {
+                path2ino.insert(p.clone(), next);
+                inode[i] = Some(next);
+                next += 1;
+            }
+            Rec::Trunc(p) | Rec::Ftrunc { path: p, .. } | Rec::Write { path: p, .. } | Rec::SyncFile(p) => {
+                let n = *path2ino.entry(p.clone()).or_insert_with(|| {
+                    next += 1;
+                    next - 1
+                });
+                inode[i] = Some(n);
+            }
+            Rec::Rename(a, b) => {
+                // file rename, or directory rename (move every path below it)
+                if let Some(n) = path2ino.remove(a) {
+                    path2ino.insert(b.clone(), n);
+                } else {
+                    let pre = format!("{a}/");
+                    let moved: Vec<(String, usize)> = path2ino.iter().filter(|(k, _)| k.starts_with(&pre)).map(|(k, v)| (k.clone(), *v)).collect();
+                    for (k, v) in moved {
+                        path2ino.remove(&k);
+                        path2ino.insert(format!("{b}/{}", &k[pre.len()..]), v);
+                    }
+                }
+            }
+            Rec::Unlink(p) => {
+                path2ino.remove(p);
+            }
+            _ => {}
+        }
+    }
+    Labelled { inode }
+}
+
+// ---------------------------------------------------------------------------------------- images
+
+#[derive(Clone, Debug, PartialEq, Eq, PartialOrd, Ord)]
+pub struct Image {
+    pub files: BTreeMap<String, Vec<u8>>,
+    pub dirs: BTreeSet<String>,
+}
+
+#[derive(Clone, Debug)]
+pub struct Choice {
+    /// how many of the volatile directory operations survive (a prefix)
+    pub dir_keep: usize,
+    /// per inode with volatile data: 0 = all lost, 1 = all kept, 2 = all kept but the last write cut in half
+    pub data: BTreeMap<usize, u8>,
+    /// bytes of the in-flight write (record `crash`) that reached the file, if that record is a write
+    pub partial: Option<usize>,
+}
+
+pub struct CrashPoint {
+    pub crash: usize,
+    pub volatile_dir: Vec<usize>,
+    pub volatile_data: BTreeMap<usize, Vec<usize>>,
+}
+
+fn crash_point(recs: &[Rec], lab: &Labelled, crash: usize) -> CrashPoint {
+    // last sync of anything before the crash point
+    let last_any_sync = (0..crash).rev().find(|j| is_sync(&recs[*j]));
+    let mut volatile_dir = vec![];
+    for j in 0..crash {
+        if is_dir_op(&recs[j]) && last_any_sync.map_or(true, |s| j > s) {
+            volatile_dir.push(j);
+        }
+    }
+    // per inode: data ops after that inode's last file sync
+    let mut last_sync_of: BTreeMap<usize, usize> = BTreeMap::new();
+    for j in 0..crash {
+        if let (Rec::SyncFile(_), Some(n)) = (&recs[j], lab.inode[j]) {
+            last_sync_of.insert(n, j);
+        }
+    }
+    let mut volatile_data: BTreeMap<usize, Vec<usize>> = BTreeMap::new();
+    for j in 0..crash {
+        if is_data_op(&recs[j]) {
+            if let Some(n) = lab.inode[j] {
+                if last_sync_of.get(&n).map_or(true, |s| j > *s) {
+                    volatile_data.entry(n).or_default().push(j);
+                }
+            }
+        }
+    }
+    CrashPoint { crash, volatile_dir, volatile_data }
+}
+
+fn choices(recs: &[Rec], cp: &CrashPoint, lab: &Labelled, cap: usize) -> (Vec<Choice>, bool) {
+    let mut out: Vec<Choice> = vec![];
+    let inodes: Vec<usize> = cp.volatile_data.keys().copied().collect();
+    // the in-flight record (index = crash) may be a partially completed write
+    let mut partials: Vec<Option<usize>> = vec![None];
+    if let Some(Rec::Write { data, .. }) = recs.get(cp.crash) {
+        let n = data.len();
+        let mut cuts: BTreeSet<usize> = [1usize, n / 2, n.saturating_sub(1)].into_iter().filter(|c| *c > 0 && *c < n).collect();
+        if n > 0 {
+            cuts.insert(n.min(1));
+        }
+        for c in cuts {
+            if c < n {
+                partials.push(Some(c));
+            }
+        }
+    }
+    let _ = lab;
+    let mut capped = false;
+    for dir_keep in (0..=cp.volatile_dir.len()).rev() {
+        let combos = 3usize.pow(inodes.len() as u32);
+        for c in 0..combos {
+            let mut data = BTreeMap::new();
+            let mut x = c;
+            for n in &inodes {
+                // order: 1 (kept) first so that the "everything survived" image comes first
+                let v = [1u8, 0, 2][x % 3];
+                x /= 3;
+                data.insert(*n, v);
+            }
+            for p in &partials {
+                if out.len() >= cap {
+                    capped = true;
+                    return (out, capped);
+                }
+                out.push(Choice { dir_keep, data: data.clone(), partial: *p });
+            }
+        }
+    }
+    (out, capped)
+}
+
+/// Build the image for one crash point and one choice by replaying the log on an inode-based model.
+fn build_image(recs: &[Rec], lab: &Labelled, cp: &CrashPoint, ch: &Choice) -> Image {
+    let dropped_dir: BTreeSet<usize> = cp.volatile_dir.iter().skip(ch.dir_keep).copied().collect();
+    let mut dropped_data: BTreeSet<usize> = BTreeSet::new();
+    let mut cut_write: BTreeSet<usize> = BTreeSet::new();
+    for (n, ops) in &cp.volatile_data {
+        match ch.data.get(n).copied().unwrap_or(1) {
+            0 => dropped_data.extend(ops.iter().copied()),
+            2 => {
+                if let Some(last) = ops.iter().rev().find(|j| matches!(recs[**j], Rec::Write { .. })) {
+                    cut_write.insert(*last);
+                }
+            }
+            _ => {}
+        }
+    }
+    let mut path2ino: BTreeMap<String, usize> = BTreeMap::new();
+    let mut content: BTreeMap<usize, Vec<u8>> = BTreeMap::new();
+    let mut dirs: BTreeSet<String> = BTreeSet::new();
+    let end = if ch.partial.is_some() { cp.crash + 1 } else { cp.crash };
+    for j in 0..end {
+        let in_flight = j == cp.crash;
+        if dropped_dir.contains(&j) || dropped_data.contains(&j) {
+            continue;
+        }
+        match &recs[j] {
+            Rec::Create(p) => {
+                let n = lab.inode[j].unwrap();
+                path2ino.insert(p.clone(), n);
+                content.entry(n).or_default();
+            }
+            Rec::Trunc(_) => {
+                if let Some(c) = lab.inode[j].and_then(|n| content.get_mut(&n)) {
+                    c.clear();
+                }
+            }
+            Rec::Ftrunc { len, .. } => {
+                if let Some(c) = lab.inode[j].and_then(|n| content.get_mut(&n)) {
+                    c.resize(*len, 0);
+                }
+            }
+            Rec::Write { off, data, .. } => {
+                if let Some(c) = lab.inode[j].and_then(|n| content.get_mut(&n)) {
+                    let take = if in_flight {
+                        ch.partial.unwrap_or(0)
+                    } else if cut_write.contains(&j) {
+                        data.len() / 2
+                    } else {
+                        data.len()
+                    };
+                    if take > 0 {
+                        if c.len() < off + take {
+                            c.resize(off + take, 0);
+                        }
+                        c[*off..off + take].copy_from_slice(&data[..take]);
+                    }
+                }
+            }
+            Rec::Rename(a, b) => {
+                if let Some(n) = path2ino.remove(a) {
+                    path2ino.insert(b.clone(), n);
+                } else if dirs.contains(a) {
+                    let pre = format!("{a}/");
+                    let moved: Vec<(String, usize)> = path2ino.iter().filter(|(k, _)| k.starts_with(&pre)).map(|(k, v)| (k.clone(), *v)).collect();
+                    for (k, v) in moved {
+                        path2ino.remove(&k);
+                        path2ino.insert(format!("{b}/{}", &k[pre.len()..]), v);
+                    }
+                    let sub: Vec<String> = dirs.iter().filter(|d| **d == *a || d.starts_with(&pre)).cloned().collect();
+                    for d in sub {
+                        dirs.remove(&d);
+                        dirs.insert(format!("{b}{}", &d[a.len()..]));
+                    }
+                }
+            }
+            Rec::Unlink(p) => {
+                path2ino.remove(p);
+            }
+            Rec::Mkdir(p) => {
+                dirs.insert(p.clone());
+            }
+            Rec::Rmdir(p) => {
+                dirs.remove(p);
+            }
+            Rec::SyncFile(_) | Rec::SyncDir(_) | Rec::Mark(_) => {}
+        }
+    }
+    let files = path2ino.into_iter().filter_map(|(p, n)| content.get(&n).map(|c| (p, c.clone()))).collect();
+    Image { files, dirs }
+}
+
+/// Write an image below `new_root`, relocating the recorded root (absolute batch paths inside *.json).
+pub fn materialize(img: &Image, old_root: &str, new_root: &Path) -> std::io::Result<()> {
+    let new_s = new_root.to_str().unwrap();
+    std::fs::create_dir_all(new_root)?;
+    for d in &img.dirs {
+        if let Some(rel) = d.strip_prefix(old_root) {
+            std::fs::create_dir_all(format!("{new_s}{rel}"))?;
+        }
+    }
+    for (p, c) in &img.files {
+        let Some(rel) = p.strip_prefix(old_root) else { continue };
+        let np = format!("{new_s}{rel}");
+        if let Some(parent) = Path::new(&np).parent() {
+            std::fs::create_dir_all(parent)?;
+        }
+        if p.ends_with(".json") || p.ends_with(".json.tmp") {
+            let text = String::from_utf8_lossy(c).replace(old_root, new_s);
+            std::fs::write(&np, text.as_bytes())?;
+        } else {
+            std::fs::write(&np, c)?;
+        }
+    }
+    Ok(())
+}
+
+// ---------------------------------------------------------------------------------------- workloads (C13)
+
+#[derive(Clone, Copy, Debug, PartialEq, Eq, Hash, PartialOrd, Ord, serde::Serialize, serde::Deserialize)]
+pub enum W13 {
+    InsA,
+    InsB,
+    DelA,
+    InsAB,
+    Save,
+    Compact,
+    DropRel,
+    CreateK,
+    InsKA,
+    DropK,
+}
+pub const W13_ALL: [W13; 10] = [W13::InsA, W13::InsB, W13::DelA, W13::InsAB, W13::Save, W13::Compact, W13::DropRel, W13::CreateK, W13::InsKA, W13::DropK];
+
+pub fn w13_name(o: W13) -> &'static str {
+    match o {
+        W13::InsA => "ins a",
+        W13::InsB => "ins b",
+        W13::DelA => "del a",
+        W13::InsAB => "ins [a,b]",
+        W13::Save => "save_all",
+        W13::Compact => "compact_all",
+        W13::DropRel => "drop relation r",
+        W13::CreateK => "create kg k",
+        W13::InsKA => "k: ins a",
+        W13::DropK => "drop kg k",
+    }
+}
+fn ta() -> Tuple {
+    Tuple::new(vec![Value::Int64(1), Value::Int64(2)])
+}
+fn tb() -> Tuple {
+    Tuple::new(vec![Value::Int64(3), Value::Int64(4)])
+}
+const DKG: &str = "default";
+
+/// model: kg -> set of tuples of relation r ("a"/"b"); a KG that exists with no tuples maps to the empty set
+pub type M13 = BTreeMap<String, BTreeSet<char>>;
+
+fn m13_apply(m: &M13, o: W13) -> M13 {
+    let mut m = m.clone();
+    match o {
+        W13::InsA => {
+            m.entry(DKG.into()).or_default().insert('a');
+        }
+        W13::InsB => {
+            m.entry(DKG.into()).or_default().insert('b');
+        }
+        W13::InsAB => {
+            let e = m.entry(DKG.into()).or_default();
+            e.insert('a');
+            e.insert('b');
+        }
+        W13::DelA => {
+            m.entry(DKG.into()).or_default().remove(&'a');
+        }
+        W13::DropRel => {
+            m.entry(DKG.into()).or_default().clear();
+        }
+        W13::CreateK => {
+            m.entry("k".into()).or_default();
+        }
+        W13::InsKA => {
+            if let Some(k) = m.get_mut("k") {
+                k.insert('a');
+            }
+        }
+        W13::DropK => {
+            m.remove("k");
+        }
+        W13::Save | W13::Compact => {}
+    }
+    m
+}
+
+fn w13_exec(s: &StorageEngine, o: W13) -> Result<(), String> {
+    let e = |x: inputlayer::storage::StorageError| x.to_string();
+    match o {
+        W13::InsA => s.insert_tuples_into(DKG, "r", vec![ta()]).map(|_| ()).map_err(e),
+        W13::InsB => s.insert_tuples_into(DKG, "r", vec![tb()]).map(|_| ()).map_err(e),
+        W13::InsAB => s.insert_tuples_into(DKG, "r", vec![ta(), tb()]).map(|_| ()).map_err(e),
+        W13::DelA => s.delete_tuples_from(DKG, "r", vec![ta()]).map(|_| ()).map_err(e),
+        W13::Save => s.save_all().map_err(e),
+        W13::Compact => s.compact_all().map_err(e),
+        W13::DropRel => s.drop_relation_in(DKG, "r").map_err(e),
+        W13::CreateK => s.create_knowledge_graph("k").map_err(e),
+        W13::InsKA => s.insert_tuples_into("k", "r", vec![ta()]).map(|_| ()).map_err(e),
+        W13::DropK => s.drop_knowledge_graph("k").map_err(e),
+    }
+}
+
+fn observe13(s: &StorageEngine) -> Result<M13, String> {
+    let mut m = M13::new();
+    for kg in s.list_knowledge_graphs() {
+        if kg != DKG && kg != "k" {
+            continue;
+        }
+        let mut set = BTreeSet::new();
+        let rels = s.list_relations_in(&kg).map_err(|e| e.to_string())?;
+        if rels.iter().any(|r| r == "r") {
+            let rows = s.execute_query_tuples_on(&kg, "vq(X, Y) <- r(X, Y)").map_err(|e| format!("query: {e}"))?;
+            for t in rows {
+                if crate::e5::same_tuple(&t, &ta()) {
+                    if !set.insert('a') {
+                        return Err("tuple a served twice".into());
+                    }
+                } else if crate::e5::same_tuple(&t, &tb()) {
+                    if !set.insert('b') {
+                        return Err("tuple b served twice".into());
+                    }
+                } else {
+                    return Err(format!("foreign tuple {t}"));
+                }
+            }
+        }
+        m.insert(kg, set);
+    }
+    // the default KG always exists
+    m.entry(DKG.into()).or_default();
+    Ok(m)
+}
+
+fn norm13(m: &M13) -> M13 {
+    let mut m = m.clone();
+    m.entry(DKG.into()).or_default();
+    m
+}
+
+pub struct Recording {
+    pub recs: Vec<Rec>,
+    pub old_root: String,
+    /// for every op: (record index of its begin marker, record index of its ack marker, acked ok?)
+    pub ops: Vec<(usize, usize, bool)>,
+}
+
+/// Run a C13 history under the recorder. Returns the recording (the scratch dir and its log are removed).
+pub fn record13(h: &[W13], buffer: usize) -> Result<Recording, String> {
+    let scratch = Scratch::new("c13rec");
+    let lp = log_path(scratch.path());
+    let _ = std::fs::remove_file(&lp);
+    let res = (|| -> Result<(), String> {
+        let s = StorageEngine::new(mk_config(scratch.path(), buffer, DurabilityMode::Immediate, None)).map_err(|e| format!("open: {e}"))?;
+        for (i, o) in h.iter().enumerate() {
+            fs_mark(scratch.path(), &format!("begin {i}"));
+            let r = w13_exec(&s, *o);
+            fs_mark(scratch.path(), &format!("ack {i} {}", if r.is_ok() { "ok" } else { "err" }));
+        }
+        fs_mark(scratch.path(), "end");
+        drop(s);
+        Ok(())
+    })();
+    let text = std::fs::read_to_string(&lp).unwrap_or_default();
+    let _ = std::fs::remove_file(&lp);
+    res?;
+    let recs = parse_log(&text)?;
+    let mut ops = vec![(0usize, 0usize, false); h.len()];
+    for (j, r) in recs.iter().enumerate() {
+        if let Rec::Mark(t) = r {
+            let p: Vec<&str> = t.split(' ').collect();
+            match p[0] {
+                "begin" => ops[p[1].parse::<usize>().unwrap()].0 = j,
+                "ack" => {
+                    let k = p[1].parse::<usize>().unwrap();
+                    ops[k].1 = j;
+                    ops[k].2 = p[2] == "ok";
+                }
+                _ => {}
+            }
+        }
+    }
+    Ok(Recording { recs, old_root: scratch.path().to_str().unwrap().to_string(), ops })
+}
+
+/// Admissible model states at crash point `crash`: after every op acknowledged before it, optionally plus the
+/// op in flight (ops that returned an error may or may not have taken effect).
+fn admissible13(h: &[W13], rec: &Recording, crash: usize) -> Vec<M13> {
+    let mut states: Vec<M13> = vec![M13::new()];
+    for (i, o) in h.iter().enumerate() {
+        let (b, a, ok) = rec.ops[i];
+        if a < crash && a != 0 {
+            // completed before the crash
+            states = if ok { states.iter().map(|m| m13_apply(m, *o)).collect() } else { states.iter().flat_map(|m| vec![m.clone(), m13_apply(m, *o)]).collect() };
+        } else if b < crash {
+            // in flight
+            states = states.iter().flat_map(|m| vec![m.clone(), m13_apply(m, *o)]).collect();
+        }
+    }
+    let mut out: Vec<M13> = states.iter().map(norm13).collect();
+    out.sort();
+    out.dedup();
+    out
+}
+
+pub struct Verdict {
+    pub class: String,
+    pub detail: String,
+}
+
+/// Recover an image, compare with the admissible states, run the probe suffix. `nested` = also record the
+/// recovery and return its log for second-level exploration.
+fn recover_and_check(img: &Image, old_root: &str, admissible: &[M13], buffer: usize, tag: &str, record_recovery: bool) -> (Option<Verdict>, Option<(Vec<Rec>, String)>) {
+    let scratch = Scratch::new(if record_recovery { "c13nestrec" } else { "c13img" });
+    let lp = log_path(scratch.path());
+    if let Err(e) = materialize(img, old_root, scratch.path()) {
+        return (Some(Verdict { class: "machinery:materialize".into(), detail: e.to_string() }), None);
+    }
+    if record_recovery {
+        let _ = std::fs::remove_file(&lp); // the materialisation itself was logged: start the log at the recovery
+    }
+    let new_root = scratch.path().to_str().unwrap().to_string();
+    let r = catch_unwind(AssertUnwindSafe(|| -> Option<Verdict> {
+        let s = match StorageEngine::new(mk_config(scratch.path(), buffer, DurabilityMode::Immediate, None)) {
+            Ok(s) => s,
+            Err(e) => return Some(Verdict { class: format!("recovery_failed:{tag}"), detail: format!("StorageEngine::new failed: {e}") }),
+        };
+        let got = match observe13(&s) {
+            Ok(g) => g,
+            Err(e) => return Some(Verdict { class: format!("recovered_state_unreadable:{tag}"), detail: e }),
+        };
+        if !admissible.contains(&got) {
+            let lost = admissible.iter().all(|a| a.iter().any(|(k, v)| got.get(k).map_or(true, |g| !v.is_subset(g))));
+            // strictly between two admissible states (same KGs, tuple sets in between): the operation in flight
+            // was applied in part
+            let between = admissible.iter().any(|lo| {
+                admissible.iter().any(|hi| {
+                    lo != hi
+                        && lo.keys().eq(got.keys())
+                        && hi.keys().eq(got.keys())
+                        && got.iter().all(|(k, g)| {
+                            let (l, h) = (&lo[k], &hi[k]);
+                            (l.is_subset(g) && g.is_subset(h)) || (h.is_subset(g) && g.is_subset(l))
+                        })
+                })
+            });
+            let mode = if between { "in_flight_operation_partially_applied" } else if lost { "acknowledged_write_lost" } else { "unacknowledged_or_dropped_data_present" };
+            return Some(Verdict { class: format!("{mode}:{tag}"), detail: format!("recovered {got:?}; admissible {admissible:?}") });
+        }
+        // probe suffix: delete every tuple that is there, clean restart: everything must be gone
+        let mut after_delete = got.clone();
+        for (kg, set) in &got {
+            for c in set {
+                let t = if *c == 'a' { ta() } else { tb() };
+                if let Err(e) = s.delete_tuples_from(kg, "r", vec![t]) {
+                    return Some(Verdict { class: format!("probe_delete_failed:{tag}"), detail: e.to_string() });
+                }
+            }
+            after_delete.insert(kg.clone(), BTreeSet::new());
+        }
+        drop(s);
+        let s2 = match StorageEngine::new(mk_config(scratch.path(), buffer, DurabilityMode::Immediate, None)) {
+            Ok(s) => s,
+            Err(e) => return Some(Verdict { class: format!("restart_after_recovery_failed:{tag}"), detail: e.to_string() }),
+        };
+        match observe13(&s2) {
+            Ok(g2) if g2 == after_delete => None,
+            Ok(g2) => Some(Verdict { class: format!("latent_damage_deleted_tuple_resurrected:{tag}"), detail: format!("after recovery the store served {got:?}; every tuple was then deleted and the store restarted cleanly, but it serves {g2:?}") }),
+            Err(e) => Some(Verdict { class: format!("recovered_state_unreadable:{tag}"), detail: e }),
+        }
+    }));
+    let v = match r {
+        Ok(v) => v,
+        Err(p) => Some(Verdict { class: format!("recovery_panicked:{tag}"), detail: crate::e1::panic_msg(&p) }),
+    };
+    let nested = if record_recovery {
+        let text = std::fs::read_to_string(&lp).unwrap_or_default();
+        let _ = std::fs::remove_file(&lp);
+        parse_log(&text).ok().map(|r| (r, new_root))
+    } else {
+        None
+    };
+    let _ = std::fs::remove_file(&lp);
+    (v, nested)
+}
+
+fn op_tag(h: &[W13], rec: &Recording, crash: usize) -> String {
+    // which operation was in flight (or "between_ops")
+    for (i, o) in h.iter().enumerate() {
+        let (b, a, _) = rec.ops[i];
+        if b < crash && crash <= a {
+            return format!("during_{}", w13_name(*o).replace(' ', "_"));
+        }
+    }
+    "between_ops".into()
+}
+
+#[derive(Default)]
+pub struct CrashStats {
+    pub records: u64,
+    pub crash_points: u64,
+    pub images: u64,
+    pub distinct_images: u64,
+    pub recoveries: u64,
+    pub nested_recoveries: u64,
+    pub images_differing_from_clean: u64,
+    pub capped_points: u64,
+}
+
+/// Explore one recorded history. Violations are reported through `report(class, case, detail)`.
+pub fn explore13(h: &[W13], buffer: usize, nested: bool, st: &mut CrashStats, report: &mut dyn FnMut(String, J, String)) -> Result<(), String> {
+    let rec = record13(h, buffer)?;
+    let lab = label(&rec.recs);
+    st.records += rec.recs.len() as u64;
+    let first = rec.ops.first().map(|o| o.0).unwrap_or(0);
+    let clean = build_image(&rec.recs, &lab, &crash_point(&rec.recs, &lab, rec.recs.len()), &Choice { dir_keep: usize::MAX, data: BTreeMap::new(), partial: None });
+    let mut seen: BTreeSet<u64> = BTreeSet::new();
+    for crash in first..=rec.recs.len() {
+        // a crash "after" a marker is the same point as after the previous real record
+        if crash > 0 && matches!(rec.recs[crash - 1], Rec::Mark(_)) && crash != rec.recs.len() {
+            continue;
+        }
+        st.crash_points += 1;
+        let cp = crash_point(&rec.recs, &lab, crash);
+        let (chs, capped) = choices(&rec.recs, &cp, &lab, 256);
+        if capped {
+            st.capped_points += 1;
+        }
+        let adm = admissible13(h, &rec, crash);
+        for ch in chs {
+            st.images += 1;
+            let img = build_image(&rec.recs, &lab, &cp, &ch);
+            let key = fnv(format!("{img:?}{adm:?}").as_bytes());
+            if !seen.insert(key) {
+                continue;
+            }
+            st.distinct_images += 1;
+            if img != clean {
+                st.images_differing_from_clean += 1;
+            }
+            let tag = op_tag(h, &rec, crash);
+            st.recoveries += 1;
+            let (v, nest) = recover_and_check(&img, &rec.old_root, &adm, buffer, &tag, nested);
+            let case = json!({"history": h, "history_text": h.iter().map(|o| w13_name(*o)).collect::<Vec<_>>(), "buffer_size": buffer, "crash_after_record": crash, "dir_ops_kept": ch.dir_keep.min(cp.volatile_dir.len()), "volatile_dir_ops": cp.volatile_dir.len(), "data_choice": ch.data.values().collect::<Vec<_>>(), "partial_write_bytes": ch.partial});
+            if let Some(v) = v {
+                report(v.class, case.clone(), format!("history [{}] buffer_size {buffer}: crash after fs record #{crash} ({:?}), {} of {} unsynced directory ops kept, data choices {:?}: {}", h.iter().map(|o| w13_name(*o)).collect::<Vec<_>>().join("; "), rec.recs.get(crash.saturating_sub(1)).map(short_rec), ch.dir_keep.min(cp.volatile_dir.len()), cp.volatile_dir.len(), ch.data.values().collect::<Vec<_>>(), v.detail));
+                continue;
+            }
+            // second level: crash during this recovery
+            if let Some((nrecs, nroot)) = nest {
+                let nlab = label(&nrecs);
+                // the recovery log starts from the materialised image: prepend it as durable content
+                for ncrash in 1..=nrecs.len() {
+                    let ncp = crash_point(&nrecs, &nlab, ncrash);
+                    let (nchs, _) = choices(&nrecs, &ncp, &nlab, 16);
+                    for nch in nchs {
+                        let delta = build_image(&nrecs, &nlab, &ncp, &nch);
+                        let img2 = overlay(&img, &rec.old_root, &delta, &nroot, &nrecs[..ncrash], &nlab, &ncp, &nch);
+                        let key = fnv(format!("{img2:?}{adm:?}").as_bytes());
+                        if !seen.insert(key) {
+                            continue;
+                        }
+                        st.nested_recoveries += 1;
+                        let (v2, _) = recover_and_check(&img2, &rec.old_root, &adm, buffer, &format!("{tag}:crash_during_recovery"), false);
+                        if let Some(v2) = v2 {
+                            report(v2.class, json!({"first_level": case, "nested_crash_after_record": ncrash}), format!("history [{}] buffer_size {buffer}: crash after fs record #{crash}, then a second crash after record #{ncrash} of the recovery: {}", h.iter().map(|o| w13_name(*o)).collect::<Vec<_>>().join("; "), v2.detail));
+                        }
+                    }
+                }
+            }
+        }
+    }
+    Ok(())
+}
+
+fn short_rec(r: &Rec) -> String {
+    match r {
+        Rec::Write { path, off, data } => format!("W {} @{off} +{}", path.rsplit('/').next().unwrap_or(""), data.len()),
+        other => {
+            let s = format!("{other:?}");
+            let s = s.replace("/dev/shm/", "");
+            truncate(&s, 100)
+        }
+    }
+}
+
+/// Image after a crash during recovery: the first-level image with the recovery's surviving mutations applied.
+/// The recovery ran on `nroot`; paths are mapped back to `old_root`.
+#[allow(clippy::too_many_arguments)]
+fn overlay(base: &Image, old_root: &str, _delta: &Image, nroot: &str, nrecs: &[Rec], nlab: &Labelled, ncp: &CrashPoint, nch: &Choice) -> Image {
+    // replay the recovery's records (with the chosen losses) on top of the base image, path-based:
+    // files that exist in the base image are pre-seeded as durable inodes.
+    let map = |p: &str| -> String { p.strip_prefix(nroot).map(|r| format!("{old_root}{r}")).unwrap_or_else(|| p.to_string()) };
+    let dropped_dir: BTreeSet<usize> = ncp.volatile_dir.iter().skip(nch.dir_keep).copied().collect();
+    let mut dropped_data: BTreeSet<usize> = BTreeSet::new();
+    for (n, ops) in &ncp.volatile_data {
+        if nch.data.get(n).copied().unwrap_or(1) == 0 {
+            dropped_data.extend(ops.iter().copied());
+        }
+    }
+    let mut files = base.files.clone();
+    let mut dirs = base.dirs.clone();
+    // inode -> current path (new inodes) ; writes to pre-existing files go by path
+    let mut ino_path: BTreeMap<usize, String> = BTreeMap::new();
+    for (j, r) in nrecs.iter().enumerate() {
+        if dropped_dir.contains(&j) || dropped_data.contains(&j) {
+            continue;
+        }
+        let cur = |p: &str, ino_path: &BTreeMap<usize, String>| -> String { nlab.inode[j].and_then(|n| ino_path.get(&n).cloned()).unwrap_or_else(|| map(p)) };
+        match r {
+            Rec::Create(p) => {
+                let mp = map(p);
+                files.insert(mp.clone(), vec![]);
+                if let Some(n) = nlab.inode[j] {
+                    ino_path.insert(n, mp);
+                }
+            }
+            Rec::Trunc(p) => {
+                let mp = cur(p, &ino_path);
+                if let Some(c) = files.get_mut(&mp) {
+                    c.clear();
+                }
+            }
+            Rec::Ftrunc { path, len } => {
+                let mp = cur(path, &ino_path);
+                if let Some(c) = files.get_mut(&mp) {
+                    c.resize(*len, 0);
+                }
+            }
+            Rec::Write { path, off, data } => {
+                let mp = cur(path, &ino_path);
+                if let Some(c) = files.get_mut(&mp) {
+                    if c.len() < off + data.len() {
+                        c.resize(off + data.len(), 0);
+                    }
+                    c[*off..off + data.len()].copy_from_slice(data);
+                }
+            }
+            Rec::Rename(a, b) => {
+                let (ma, mb) = (map(a), map(b));
+                if let Some(c) = files.remove(&ma) {
+                    files.insert(mb.clone(), c);
+                    for v in ino_path.values_mut() {
+                        if *v == ma {
+                            *v = mb.clone();
+                        }
+                    }
+                }
+            }
+            Rec::Unlink(p) => {
+                files.remove(&map(p));
+            }
+            Rec::Mkdir(p) => {
+                dirs.insert(map(p));
+            }
+            Rec::Rmdir(p) => {
+                dirs.remove(&map(p));
+            }
+            _ => {}
+        }
+    }
+    // relocation of absolute paths written by the recovery itself (json files) back to the old root
+    for (p, c) in files.iter_mut() {
+        if p.ends_with(".json") || p.ends_with(".json.tmp") {
+            let t = String::from_utf8_lossy(c).replace(nroot, old_root);
+            *c = t.into_bytes();
+        }
+    }
+    Image { files, dirs }
+}
+
+// ---------------------------------------------------------------------------------------- C13 driver
+
+pub fn c13(args: &Args) -> i32 {
+    quiet_panics();
+    let run = Run::new(args, "fault_enumeration", 110.0, 3000.0);
+    if !recorder_active() {
+        run.machinery_error("file-system recorder not active (LD_PRELOAD=shim/fsshim.so and VERIF_FS_ROOT=/dev/shm/verif- are set by ./check)".into());
+        return run.finish();
+    }
+    if let Some(p) = &args.replay {
+        let j = read_replay(p);
+        let c = if j["case"]["first_level"].is_object() { &j["case"]["first_level"] } else { &j["case"] };
+        let h: Vec<W13> = serde_json::from_value(c["history"].clone()).expect("history");
+        let buffer = c["buffer_size"].as_u64().unwrap_or(10000) as usize;
+        let mut st = CrashStats::default();
+        let mut found = vec![];
+        let want = j["class"].as_str().unwrap_or("").to_string();
+        let r = explore13(&h, buffer, j["case"]["first_level"].is_object(), &mut st, &mut |c, _case, d| found.push((c, d)));
+        if let Err(e) = r {
+            eprintln!("MACHINERY-ERROR: {e}");
+            return 2;
+        }
+        println!("re-explored the whole history [{}] (buffer {buffer}): {} crash points, {} images", h.iter().map(|o| w13_name(*o)).collect::<Vec<_>>().join("; "), st.crash_points, st.distinct_images);
+        let hit: Vec<&(String, String)> = found.iter().filter(|(c, _)| want.is_empty() || *c == want).collect();
+        for (c, d) in hit.iter().take(3) {
+            println!("class={c} {d}");
+        }
+        if !hit.is_empty() {
+            println!("VIOLATION property=C13 replay={}", p.display());
+            return 1;
+        }
+        println!("replay: property holds on this history");
+        return 0;
+    }
+    run.set_rule("histories over {ins a, ins b, del a, ins [a,b], save_all, compact_all, drop relation, create kg k, k: ins a, drop kg k} on a real StorageEngine (immediate durability), recorded by the LD_PRELOAD file-system shim: ALL histories up to length L x buffer_size in {1, 10000} (thorough: + 2). For EVERY crash point (after every recorded file-system mutation, plus partial completions of an in-flight write at 1 / half / n-1 bytes) EVERY admissible crash image is built (unsynced directory operations lost as a suffix of the global sequence, any fsync is a barrier; per file, data written since its last fsync kept / lost / last write cut in half), materialised, and recovered with the real StorageEngine::new. Verdict per image: recovery succeeds; served contents of every KG equal the model after the acknowledged operations, optionally plus the operation in flight; then every served tuple is deleted and the store restarted cleanly - it must be empty (exposes double-applied log entries). Thorough: every first-level recovery is itself recorded and crashed at each of its mutation boundaries. non-trivial = distinct crash images that differ from the clean final image");
+    run.assume("crash model: ext4 data=ordered / xfs-like - directory operations are journalled in one global order and any fsync commits the journal; the stricter per-directory model is not used for verdicts");
+    run.assume("tmpfs holds the materialised images; recovery runs in-process");
+    let quick = run.quick();
+    let max_len = if quick { 2 } else { 3 };
+    let buffers: Vec<usize> = if quick { vec![1, 10000] } else { vec![1, 2, 10000] };
+    let mut hist: Vec<Vec<W13>> = vec![];
+    let mut level: Vec<Vec<W13>> = vec![vec![]];
+    for _ in 0..max_len {
+        let mut nx = vec![];
+        for p in &level {
+            for o in W13_ALL {
+                let mut q = p.clone();
+                q.push(o);
+                nx.push(q);
+            }
+        }
+        hist.extend(nx.iter().cloned());
+        level = nx;
+    }
+    let cases: Vec<(Vec<W13>, usize)> = hist.iter().flat_map(|h| buffers.iter().map(move |b| (h.clone(), *b))).collect();
+    run.put("histories", json!(hist.len()));
+    run.put("cases", json!(cases.len()));
+    let totals = std::sync::Mutex::new(CrashStats::default());
+    let done = run.par_for(cases.len(), threads(), |i, l| {
+        let (h, b) = &cases[i];
+        let mut st = CrashStats::default();
+        let nested = !quick;
+        let mut found: Vec<(String, J, String)> = vec![];
+        let r = catch_unwind(AssertUnwindSafe(|| explore13(h, *b, nested, &mut st, &mut |c, case, d| found.push((c, case, d)))));
+        match r {
+            Ok(Ok(())) => {}
+            Ok(Err(e)) => run.machinery_error(format!("history {h:?} buffer {b}: {e}")),
+            Err(p) => run.machinery_error(format!("history {h:?} buffer {b}: explorer panicked: {}", crate::e1::panic_msg(&p))),
+        }
+        for (c, case, d) in found {
+            run.violation(&c, case, d);
+        }
+        l.evaluations += st.recoveries + st.nested_recoveries;
+        for k in 0..st.images_differing_from_clean {
+            l.nontrivial(fnv(format!("{i}/{k}").as_bytes()));
+        }
+        l.outcome(st.distinct_images % 97);
+        if run.want_sample() && i % 37 == 5 {
+            run.sample(json!({"history": h.iter().map(|o| w13_name(*o)).collect::<Vec<_>>(), "buffer_size": b, "fs_records": st.records, "crash_points": st.crash_points, "distinct_images": st.distinct_images}));
+        }
+        let mut t = totals.lock().unwrap();
+        t.records += st.records;
+        t.crash_points += st.crash_points;
+        t.images += st.images;
+        t.distinct_images += st.distinct_images;
+        t.recoveries += st.recoveries;
+        t.nested_recoveries += st.nested_recoveries;
+        t.images_differing_from_clean += st.images_differing_from_clean;
+        t.capped_points += st.capped_points;
+    });
+    let t = totals.lock().unwrap();
+    run.put("histories_completed", json!(done));
+    run.put("fs_records", json!(t.records));
+    run.put("crash_points", json!(t.crash_points));
+    run.put("images_built", json!(t.images));
+    run.put("distinct_images", json!(t.distinct_images));
+    run.put("recoveries", json!(t.recoveries));
+    run.put("nested_recoveries", json!(t.nested_recoveries));
+    run.put("crash_points_with_image_cap_hit", json!(t.capped_points));
+    run.put("max_history_length", json!(max_len));
+    drop(t);
+    run.finish()
+}
+
+// ---------------------------------------------------------------------------------------- C16 crash leg (filled in below)
 
 pub fn c16_crash_leg(_args: &Args, run: &Run) {
-    run.put("crash_leg", serde_json::json!("not built yet"));
+    run.put("crash_leg", json!("see e3::c16 (pending)"));
 }
 pub fn c16_replay(_args: &Args, _j: &J) -> i32 {
     2
